@@ -195,6 +195,9 @@ fn run(ctx: &RunCtx) -> Report {
     let rawnet = RawNet::new();
     let n_script = rng.usize(3, 40);
     let mut spec = NodeSpec::new(victim_ip, 6881).server();
+    if public && rng.chance(1, 2) {
+        spec.public_ip = Some(victim_ip);
+    }
     if rng.chance(1, 4) {
         spec.clock_ppm = rng.range(0, 60_000) as i64 - 30_000;
     }
@@ -242,6 +245,7 @@ fn run(ctx: &RunCtx) -> Report {
     report.elements = n_events;
     let span = rng.range(1, 45) * 60 * SEC;
     let mut sybil_ids: Vec<Id> = vec![];
+    let mut sibling_events = 0u64;
     let mut plan = vec![format!("victim {victim_addr} first_node={first_node} public={public} scripted={n_script} distances={distances:?} span_min={}", span / (60 * SEC))];
     let t0 = sim.now();
     let rekey_at = if public && rng.chance(1, 2) { Some(t0 + rng.range(1, span / SEC) * SEC) } else { None };
@@ -273,7 +277,26 @@ fn run(ctx: &RunCtx) -> Report {
             }
         };
         let id = if public && r.chance(1, 3) { krpc::bep42_id(ip, id) } else { id };
-        let src = SocketAddrV4::new(ip, r.range(1024, 1030) as u16);
+        let mut src = SocketAddrV4::new(ip, r.range(1024, 1030) as u16);
+        // siblings behind the victim's own public IP whose BEP42-valid ids share the victim's 21-bit
+        // prefix (same r & 7) and diverge from its id only later: different buckets, one IP, one prefix
+        let (id, sibling) = if public && krpc::bep42_secure(&own, victim_ip) && r.chance(1, 5) {
+            let mut sid = own;
+            let bit = r.usize(21, 150);
+            let rnd = r.id();
+            for i in (bit + 1)..157 {
+                let (byte, off) = (i / 8, 7 - i % 8);
+                sid[byte] = (sid[byte] & !(1 << off)) | (rnd[byte] & (1 << off));
+            }
+            sid[bit / 8] ^= 1 << (7 - bit % 8);
+            src = SocketAddrV4::new(victim_ip, r.range(2000, 2010) as u16);
+            (sid, true)
+        } else {
+            (id, false)
+        };
+        if sibling {
+            sibling_events += 1;
+        }
         let version = if r.chance(3, 4) { Some(krpc::VERSION_RS6.to_vec()) } else { Some(b"LT\x01\x02".to_vec()) };
         let opts = MsgOpts {
             version,
@@ -315,6 +338,7 @@ fn run(ctx: &RunCtx) -> Report {
     if let Some((key, detail)) = &c.violation {
         report.violate("table-invariant", key, detail.clone());
     }
+    report.probe("same_ip_same_prefix_sibling_requests", sibling_events);
     report.probe("full_bucket_snapshots", c.full_buckets_seen.min(1_000_000));
     report.probe("stale_head_replacements", c.stale_replacements);
     report.probe("stale_removals", c.stale_removals);
